@@ -1,6 +1,7 @@
 """Checks C16, C17: Group.tla against the real ConsumerGroup / Coordinator."""
 import json
 import random
+import re
 from multiprocessing import Pool
 
 from . import groupfam, groupfull, tlc
@@ -111,6 +112,33 @@ def leader_partitions(chk, tier, seed):
     run_group(chk, "C15", tier, seed, alias=alias)
 
 
+def liveness(chk, tier):
+    """C17's temporal half on the design: once faults cease the member settles as a stable member (Group_Live.tla,
+    complete state space, weak fairness of every kind of fault-free event)"""
+    cfg = groupfam.CONFIGS[0]
+    defs, consts = groupfam.cfg_constants(cfg)
+    for kf, expect in ((False, True), (True, False)):
+        wd = tlc.workdir("C17-%s-live-%s" % (tier, "kf" if kf else "design"))
+        lines = ["SPECIFICATION LSpec", "CONSTANTS"] + consts + ["  KF_SwallowFatal = %s" % ("TRUE" if kf else "FALSE"), "  MaxDepth = 0",
+                                                                   "CONSTRAINT LBound", "PROPERTY C17_settles", "CHECK_DEADLOCK FALSE"]
+        tla, cfgp = tlc.write_mc(wd, "MC_live", "Group_Live", defs, lines)
+        rc, text, wall = tlc.run(tla, cfgp, wd, workers=8, timeout=1800)
+        violated = bool(re.search(r"Temporal propert(y \S+ was|ies were) violated", text))
+        if rc != 0 and not violated:
+            raise tlc.MachineryError("liveness check failed to run (rc=%s):\n%s" % (rc, text[-1500:]))
+        res = tlc.MCResult(0, text, wall)
+        if not kf:
+            chk.add_model("Group_Live", res, {"KF_SwallowFatal": False, "constraint": "rtimers <= 3", "fairness": "WF of each fault-free event kind"},
+                          "temporal property C17_settles: (<>[][fault-free steps]) => <>[](stable member or stopped/failed)")
+        chk.count("C17.settles:%s:%s" % ("with-known-finding" if kf else "design", "violated" if violated else "holds"))
+        if not kf and violated:
+            k = max(0, text.find("Error: Temporal propert"))
+            chk.violation("C17.settles", "design", "the design model admits a behaviour in which faults cease and the member never settles",
+                          {"family": "group-live", "counterexample": text[k:k + 6000]})
+        if kf and not violated:
+            chk.notes.append("unexpected: with the recorded finding enabled the temporal property was not violated")
+
+
 def fsig(steps, line):
     return ">".join((r["e"]["a"] + (":" + r["e"]["k"] if r["e"]["k"] else "")) for r in steps[max(0, line - 3):line])
 
@@ -178,6 +206,7 @@ def main(prop, tier, seed, replay_file):
                                "rebalance and forms the generation from those who joined; members are evicted only by the scheduler")
         run_groupfull(chk, prop, tier, seed)
         if prop == "C17":
+            liveness(chk, tier)
             from . import check_calls
             check_calls.parts_lookup(chk, tier, seed)
 
